@@ -210,3 +210,32 @@ def known_findings():
             if l and not l.startswith("#"):
                 out.append(json.loads(l))
     return out
+
+
+def build_coq_target(target):
+    """`make <target>` builds exactly that file and what it depends on (full .vo, no -vos)."""
+    with common.Lock("coq"):
+        t0 = time.time()
+        mk = os.path.join(COQ, "Makefile")
+        cp = os.path.join(COQ, "_CoqProject")
+        if not os.path.exists(mk) or os.path.getmtime(mk) < os.path.getmtime(cp):
+            rc, out = sh("coq_makefile -f _CoqProject -o Makefile", cwd=COQ, timeout=120)
+            if rc:
+                return False, out
+        rc, out = sh("timeout 1500 make -j%d %s 2>&1" % (NCPU, target), cwd=COQ, timeout=1600)
+        return rc == 0, out[-6000:] + "\n[make %.1fs]" % (time.time() - t0)
+
+
+def first_error(log):
+    lines = log.split("\n")
+    for i, l in enumerate(lines):
+        if l.startswith("File ") and i + 1 < len(lines) and "Error" in "\n".join(lines[i:i + 3]):
+            return " ".join(x.strip() for x in lines[i:i + 6])[:600]
+    return log[-400:]
+
+
+def theorem_names(pid):
+    src = os.path.join(COQ, "properties", pid + ".v")
+    if not os.path.exists(src):
+        return []
+    return re.findall(r"^\s*Theorem\s+([A-Za-z0-9_']+)", strip_comments(open(src).read()), re.M)
